@@ -10,8 +10,11 @@
    Reading the statements:
      mk_env buffer nbr   the machine advertises `buffer` data bytes, nbr is its topology;
      order               how a burst was actually executed / completed: any list that [covers] the chunk list
-                         (window > 1, lost / delayed / duplicated replies permute and repeat; C06 guarantees
-                         that each callback gets a reply to its own command);
+                         (window > 1, lost / delayed / duplicated replies permute and repeat).  The order
+                         theorems ASSUME that each callback gets the reply to its own command; C06 proves that
+                         only under `causal` + `fresh` and refutes it without `fresh` (a duplicate that outlives its
+                         16-bit sequence number).  The burst theorems below carry that condition explicitly
+                         ([own_replies]) and C07_read_other_reply_refuted shows what happens without it;
      mem_range (M c) a n the bytes stored at [a, a+n) of chip c;
      stored_exactly M M' c a data   M' has exactly `data` at [a, a+|data|) of chip c and equals M at every
                          other byte of every chip;
@@ -19,13 +22,18 @@
                          a so aligned address and length.
    Guards: 0 <= address, address + length <= 2^32 (the 32-bit address space), 1 <= buffer < 2^32 (4 <= buffer for
    the link functions: below that they do not terminate, C07_guards_needed), word alignment for the link
-   functions (otherwise the documented ValueError: the four C07_link_..._misaligned_... theorems). *)
+   functions (otherwise the documented ValueError: the four C07_link_..._misaligned_... theorems).
+   Not covered by a theorem (harness only): the value <-> bytes step of struct fields (struct.pack / unpack, utf-8
+   names); which chip / core a call addresses when x, y, p come from contexts (C18's rule); discover_connections and
+   the choice of connection; what a WRITE leaves behind when its burst raises (only: nothing outside the range, by
+   the oracle); the closed form of the receive length for buffer sizes beyond the 16 bits sver can report (the float
+   expression is checked against it up to 65607; a deviation could only make the length larger). *)
 From Coq Require Import ZArith List Bool String.
 Require Import Rig.Generated.GenMemOps Rig.Generated.GenSCP Rig.Model.Base Rig.Model.Machine Rig.Model.MemOps
   Rig.Spec.MemOps Rig.Proofs.MemOpsArith Rig.Proofs.MemOps Rig.Proofs.MemOpsChunks Rig.Proofs.MemOpsExact
   Rig.Proofs.MemOpsTop Rig.Proofs.MemOpsFill Rig.Proofs.MemOpsLink Rig.Model.MemOpsState Rig.Proofs.MemOpsState
   Rig.Proofs.MemOpsExamples.
-Require Rig.Model.SCP.
+Require Rig.Model.SCP Rig.Spec.SCP.
 Import ListNotations.
 Open Scope Z_scope.
 
@@ -239,10 +247,19 @@ Theorem C07_write_vcpu_current_tables :
                   trace_ok buffer tr /\ Forall (fun r => rq_chip r = c) tr.
 Proof. exact st_write_vcpu_exact. Qed.
 
-(* ---- composition with C06: the callbacks of a burst (Model/SCP.v) that returns complete every chunk exactly once,
-        so the order they give covers the chunk list -- for EVERY connection state (the 16-bit sequence counter
-        anywhere, the wrap inside the transfer included), window, try count and event list.  A read over a burst is
-        exact when the burst returns and raises otherwise: it never returns other bytes. *)
+(* ---- composition with C06.
+        (1) Unconditionally: the callbacks of a burst (Model/SCP.v) that returns complete every chunk exactly once,
+        so the order they give covers the chunk list -- for every connection state (the 16-bit sequence counter
+        anywhere), window, try count and event list (C06_completion_exactly_once).
+        (2) WHICH reply a callback is handed is not unconditional: sc_read_burst splices, into the slice of the
+        chunk whose callback runs, the payload of the reply the callback was actually handed -- the reply to the
+        command that the datagram's transmission carried ([served], [owner_of]).  Under [own_replies] (every callback
+        was handed the reply to its own command) a read over a burst is exact when the burst returns and raises
+        otherwise.  C06 establishes own_replies under config_ok, history_ok, `causal` and `fresh`
+        (C07_own_replies_under_c06, via C06_reply_matches); without `fresh` C06 refutes it (its finding
+        seq-wrap-stale-duplicate), and then a read can return another chunk's bytes without raising
+        (C07_read_other_reply_refuted).  For a write, own_replies is what makes the callbacks witness executions: a
+        command completed by its own reply was executed by the machine. *)
 Theorem C07_burst_order_covers :
   forall (A : Type) (cs : list A) cf evs k tr k' rest,
     SCP.burst cf (burst_cmds (List.length cs)) evs k = (tr, SCP.Returned, k', rest) ->
@@ -250,29 +267,55 @@ Theorem C07_burst_order_covers :
 Proof. exact order_of_covers. Qed.
 
 Theorem C07_read_over_burst_exact_or_raises :
-  forall cf evs k buffer nbr M c core address length r,
+  forall cf evs k past buffer nbr M c core address length r,
     0 <= address -> 0 <= length -> address + length <= 2 ^ 32 -> 1 <= buffer < 2 ^ 32 ->
-    sc_read_burst cf evs k (mk_env buffer nbr) M c core address length = r ->
+    (forall tr k' rest cs, read_chunks address length buffer = Ok cs ->
+       SCP.burst cf (burst_cmds (List.length cs)) evs k = (tr, SCP.Returned, k', rest) ->
+       own_replies (past ++ tr) tr = true) ->
+    sc_read_burst cf evs k past (mk_env buffer nbr) M c core address length = r ->
     (exists tr, r = Ok (tr, mem_range (M c) address length) /\ trace_ok buffer tr /\
                 Forall (fun q => is_read_cmd (rq_cmd q)) tr) \/
     (forall v, r <> Ok v).
 Proof. exact sc_read_burst_exact_or_raises. Qed.
 
 Theorem C07_write_over_burst_exact :
-  forall cf evs k tr k' rest buffer nbr M c core address data cs,
+  forall cf evs k past tr k' rest buffer nbr M c core address data cs,
     0 <= address -> address + zlen data <= 2 ^ 32 -> 1 <= buffer < 2 ^ 32 ->
     write_chunks address buffer data = Ok cs ->
     SCP.burst cf (burst_cmds (List.length cs)) evs k = (tr, SCP.Returned, k', rest) ->
+    own_replies (past ++ tr) tr = true ->
     exists trq M', call_run (mk_env buffer nbr) M c core (order_of cs tr) = Ok (trq, M') /\
                    stored_exactly M M' c address data /\ trace_ok buffer trq.
 Proof. exact call_run_burst_exact. Qed.
 
+(* own_replies from C06's hypotheses (tx_unique: transmission numbers name transmissions, as C06's counter k_ntx
+   makes them) *)
+Theorem C07_own_replies_under_c06 :
+  forall cf n evs k past tr oc k' rest,
+    Spec.SCP.config_ok cf -> Spec.SCP.history_ok past k (burst_cmds n) ->
+    SCP.burst cf (burst_cmds n) evs k = (tr, oc, k', rest) ->
+    Spec.SCP.causal (past ++ tr) -> Spec.SCP.fresh (past ++ tr) -> tx_unique (past ++ tr) ->
+    own_replies (past ++ tr) tr = true.
+Proof. exact own_replies_under_c06. Qed.
+
+(* without own replies: two chunks of equal size, the callback of the second is handed a reply caused by the first
+   one's command: nothing is raised and the read returns the first chunk's bytes twice *)
+Theorem C07_read_other_reply_refuted :
+  exists cs hist tr,
+    read_chunks 4096 8 4 = Ok cs /\ own_replies hist tr = false /\ covers cs (map fst (served cs hist tr)) /\
+    match read_run_served (mk_env 4 ex_nbr) ex_M (1, 2) 0 (served cs hist tr) (repeat 0 8) with
+    | Ok (_, out) => Some out
+    | _ => None
+    end = Some (mem_range (ex_M (1, 2)) 4096 4 ++ mem_range (ex_M (1, 2)) 4096 4)%list /\
+    (mem_range (ex_M (1, 2)) 4096 4 ++ mem_range (ex_M (1, 2)) 4096 4)%list <> mem_range (ex_M (1, 2)) 4096 8.
+Proof. exact ex_other_reply. Qed.
+
 Example C07_burst_across_seq_wrap :
   (let '(tr, oc, k', _) := SCP.burst ex_wrap_cf (burst_cmds 4) ex_wrap_events ex_wrap_conn in
-   (callback_ids tr, oc, SCP.k_seq k',
+   (callback_ids tr, oc, SCP.k_seq k', own_replies ([] ++ tr) tr,
     flat_map (fun o => match o with SCP.OSend _ c s _ => [(c, s)] | _ => [] end) tr)) =
-  ([1; 0; 3; 2], SCP.Returned, 2, [(0, 65534); (1, 65535); (2, 0); (3, 1); (2, 0); (3, 1)]) /\
-  match sc_read_burst ex_wrap_cf ex_wrap_events ex_wrap_conn (mk_env 4 ex_nbr) ex_M (1, 2) 0 4097 16 with
+  ([1; 0; 3; 2], SCP.Returned, 2, true, [(0, 65534); (1, 65535); (2, 0); (3, 1); (2, 0); (3, 1)]) /\
+  match sc_read_burst ex_wrap_cf ex_wrap_events ex_wrap_conn [] (mk_env 4 ex_nbr) ex_M (1, 2) 0 4097 16 with
   | Ok (tr, out) => Some (map (fun r => match rq_cmd r with CRead a _ _ => a | _ => 0 end) tr, out)
   | _ => None
   end = Some ([4101; 4097; 4109; 4105], mem_range (ex_M (1, 2)) 4097 16).
@@ -308,6 +351,13 @@ Example C07_write_hypotheses_satisfiable :
   Some ([(1000, 16, DataType_word); (1016, 16, DataType_word); (1032, 8, DataType_word)],
         ex_M (1, 2) 999 :: pattern_data 1 40 ++ [ex_M (1, 2) 1040]).
 Proof. exact ex_write_instance. Qed.
+
+Example C07_write_permuted_repeated :
+  match sc_write_order (mk_env 16 ex_nbr) ex_M (1, 2) 0 1001 (pattern_data 1 37) (fun cs => (rev cs ++ cs)%list) with
+  | Ok (tr, M') => Some (List.length tr, mem_range (M' (1, 2)) 1000 39)
+  | _ => None
+  end = Some (6%nat, (ex_M (1, 2) 1000 :: pattern_data 1 37 ++ [ex_M (1, 2) 1038])%list).
+Proof. exact ex_write_permuted_repeated. Qed.
 
 Example C07_field_fill_link_instances :
   field_find "vcpu_base" sv_fields = Some (sv_vcpu_base_offset, 4) /\
